@@ -9,6 +9,10 @@ pid, k = sys.argv[1], sys.argv[2]
 extra = sys.argv[3:]
 src = Path(f"/tmp/seed_out/{pid}")
 patch, demo, meta = src / f"patch{k}.diff", src / f"demo{k}.py", src / f"meta{k}.json"
+stored = Path(f"/verif/seeded/{pid}_{k}")
+if os.environ.get("SEED_FROM_STORED") and (stored / "patch.diff").exists():
+    # re-run of a stored change (the copy under /verif/seeded is the reference)
+    patch, demo, meta = stored / "patch.diff", stored / "demo.py", stored / "meta.json"
 wt = Path(f"/tmp/seedrun_{pid}_{k}_{os.getpid()}")
 def sh(cmd, **kw):
     return subprocess.run(cmd, shell=True, capture_output=True, text=True, **kw)
@@ -59,10 +63,13 @@ print(json.dumps(res, indent=1))
 if ok:
     out = Path(f"/verif/seeded/{pid}_{k}")
     out.mkdir(parents=True, exist_ok=True)
-    shutil.copy(patch, out / "patch.diff")
-    shutil.copy(demo, out / "demo.py")
-    m = json.loads(meta.read_text()) if meta.exists() else {}
+    if patch.parent != out:
+        shutil.copy(patch, out / "patch.diff")
+        shutil.copy(demo, out / "demo.py")
     prev = json.loads((out / "meta.json").read_text()) if (out / "meta.json").exists() else None
+    m = dict(prev) if prev is not None else {}
+    if meta.exists() and meta.parent != out:
+        m.update(json.loads(meta.read_text()))
     if prev is not None and prev.get("checks") != res["checks"]:
         m["earlier_runs"] = prev.get("earlier_runs", []) + [prev.get("checks")]
     m.update({"breaks_property": pid, "what_i_ran": [
